@@ -35,7 +35,7 @@ use super::{PartialDate, ZonedDateTime};
 mod era;
 mod types;
 
-pub(crate) use types::{month_to_month_code, ResolutionType};
+pub(crate) use types::ResolutionType;
 pub use types::{MonthCode, ResolvedCalendarFields};
 
 use era::EraInfo;
